@@ -46,6 +46,10 @@
 #define LEQ_NoLabel(a, b) 1
 #define LEQ_uint(a, b) ((a) == (b))
 #define LEQ_real(a, b) ((a) == (b))
+#define LNUM_VLabel(v) ((bg_size)0)
+#define LNUM_NoLabel(v) ((bg_size)0)
+#define LNUM_uint(v) ((bg_size)(v))
+#define LNUM_real(v) ((bg_size)(v))
 #define M_SAME_X(m, F, EQ)                                                    \
   ((m).s.hasPQ == F((m).s.hasPQ) && (m).s.hasQP == F((m).s.hasQP) &&                  \
    EQ(*(m).valPQ, F(*(m).valPQ)) && EQ(*(m).valQP, F(*(m).valQP)) &&          \
@@ -160,6 +164,29 @@
 /* self-loop copies at G_P / G_Q */
 #define U_LOOPS_P_(g, F) F(U_B(g)->adjacencyList.rowP->c.nP)
 #define U_LOOPS_Q_(g, F) (G_P == G_Q ? F(U_B(g)->adjacencyList.rowP->c.nP) : F(U_B(g)->adjacencyList.rowQ->c.nQ))
+
+/* ================= multigraphs / weighted graphs: base object + running total ================= */
+/* ghost: sum of all stored label values (valid when no value cell is checked out) */
+#define M_SUM_(m, F)                                                          \
+  ((F((m).s.hasPQ) ? (bg_size)F(*(m).valPQ) : (bg_size)0) +                    \
+   (F((m).s.hasQP) ? (bg_size)F(*(m).valQP) : (bg_size)0) + F((m).s.restSum))
+#define M_SUM(m) M_SUM_(m, ID)
+#define M_VAL_PQ_(m, F) (F((m).s.hasPQ) ? (bg_size)F(*(m).valPQ) : (bg_size)0)
+#define M_VAL_QP_(m, F) (F((m).s.hasQP) ? (bg_size)F(*(m).valQP) : (bg_size)0)
+#define M_POS(m) ((!(m).s.hasPQ || *(m).valPQ >= 1) && (!(m).s.hasQP || *(m).valQP >= 1))
+#define M_RANGE(m) 1
+/* DM / DW : struct { struct LDG_<L> base; total } */
+#define X_B(g) (&(g)->base)
+#define X_PRE_D(g)                                                            \
+  (__CPROVER_is_fresh(g, sizeof(*(g))) && BG_ADJ_FRESH(X_B(g)->adjacencyList) && \
+   BG_MAP_FRESH(X_B(g)->edgeLabels) && D_WF_SAFE(X_B(g)) && M_RANGE(X_B(g)->edgeLabels) && \
+   bg_exc == BG_EXC_NONE && BG_SCRATCH_CLEAN)
+/* UM / UW : struct { struct LUG_<L> base; total } */
+#define Y_B(g) (&(g)->base.base)
+#define Y_PRE_U(g)                                                            \
+  (__CPROVER_is_fresh(g, sizeof(*(g))) && BG_ADJ_FRESH(Y_B(g)->adjacencyList) && \
+   BG_MAP_FRESH(Y_B(g)->edgeLabels) && D_WF_SAFE(Y_B(g)) && M_RANGE(Y_B(g)->edgeLabels) && \
+   bg_exc == BG_EXC_NONE && BG_SCRATCH_CLEAN)
 
 #define U_TOUCHES(v) (G_P == (v) || G_Q == (v))
 /* fresh pointer parameters of an outlined loop over a graph */
